@@ -77,8 +77,18 @@ func ruleC12(p *Prog, r *Res) {
 				return fn.FullName() == "os.Remove" && len(c.Args) == 1 && isFieldOf(info, c.Args[0], stateFn)
 			})
 		}
+		// a package-local helper that performs the step and hands its failure back (error-accumulation idiom)
+		viaHelper := func(n ast.Node, step string) bool {
+			if _, isAs := n.(*ast.AssignStmt); !isAs {
+				return false
+			}
+			return nodeCalls(p, f, n, func(fn *types.Func, c *ast.CallExpr) bool {
+				h := p.FnOfObj(fn)
+				return h != nil && h.Pkg == f.Pkg && h.Lit == nil && h != f && helperPropagates(p, h, step)
+			})
+		}
 		isEncode := func(n ast.Node) bool {
-			return nodeCalls(p, f, n, func(fn *types.Func, c *ast.CallExpr) bool { return fn.FullName() == "(*encoding/json.Encoder).Encode" })
+			return nodeCalls(p, f, n, func(fn *types.Func, c *ast.CallExpr) bool { return fn.FullName() == "(*encoding/json.Encoder).Encode" }) || viaHelper(n, "(*encoding/json.Encoder).Encode")
 		}
 		isClose := func(n ast.Node) bool {
 			// the checked close: `err := f.Close()` as an assignment (the close in the Encode error branch is an ExprStmt)
@@ -86,7 +96,7 @@ func ruleC12(p *Prog, r *Res) {
 			if !ok {
 				return false
 			}
-			return nodeCalls(p, f, as, func(fn *types.Func, c *ast.CallExpr) bool { return fn.FullName() == "(*os.File).Close" })
+			return nodeCalls(p, f, as, func(fn *types.Func, c *ast.CallExpr) bool { return fn.FullName() == "(*os.File).Close" }) || viaHelper(n, "(*os.File).Close")
 		}
 		isRecord := func(n ast.Node) bool {
 			as, ok := n.(*ast.AssignStmt)
@@ -873,4 +883,95 @@ func init() {
 			})
 			r.Floor(rule, 2, n)
 		})
+}
+
+// helperPropagates: h performs the call named step on every path to a successful return, and a failure of that call
+// reaches h's caller — the step's error is stored in (or is) the variable h returns, and every later assignment to that
+// variable is guarded by `<var> == nil`, so an earlier failure is never overwritten (error-accumulation idiom:
+// `err = enc.Encode(x); if cerr := f.Close(); err == nil { err = cerr }; return err`).
+func helperPropagates(p *Prog, h *Fn, step string) bool {
+	if h.Body() == nil {
+		return false
+	}
+	info := h.Pkg.TypesInfo
+	fl := p.Flow(h)
+	isStep := func(n ast.Node) bool {
+		return nodeCalls(p, h, n, func(fn *types.Func, _ *ast.CallExpr) bool { return fn.FullName() == step })
+	}
+	pts := fl.Find(isStep)
+	if len(pts) == 0 {
+		return false
+	}
+	// the step lies on every path to a non-failing return
+	if fl.ExitAvoiding([]Pt{fl.Entry()}, func(n ast.Node) bool { return isStep(n) || isErrReturn(info, n) }).Found {
+		// a `return err` with a variable is not recognised as failing by isErrReturn only if err is the nil identifier: fine
+		// but a successful path without the step disqualifies the helper
+		return false
+	}
+	// the variable h returns
+	var ret types.Object
+	okRet := true
+	inspectShallow(h.Body(), func(x ast.Node) bool {
+		if rs, ok := x.(*ast.ReturnStmt); ok && len(rs.Results) > 0 {
+			last := rs.Results[len(rs.Results)-1]
+			if o := identObj(info, last); o != nil {
+				if _, isNil := o.(*types.Nil); isNil {
+					return true
+				}
+				if ret == nil {
+					ret = o
+				}
+			}
+		}
+		return true
+	})
+	if ret == nil || !okRet {
+		return false
+	}
+	for _, pt := range pts {
+		// error variable of the step
+		var ev types.Object
+		switch n := fl.node(pt).(type) {
+		case *ast.AssignStmt:
+			ev = identObj(info, n.Lhs[len(n.Lhs)-1])
+		}
+		if ev == nil {
+			return false
+		}
+		flows := ev == ret
+		guardedOnly := true
+		inspectParents(h.Body(), func(x ast.Node, parents []ast.Node) bool {
+			as, ok := x.(*ast.AssignStmt)
+			if !ok || x.Pos() <= fl.node(pt).Pos() {
+				return true
+			}
+			for i, l := range as.Lhs {
+				if !sameObj(info, l, ret) {
+					continue
+				}
+				if i < len(as.Rhs) && sameObj(info, as.Rhs[i], ev) {
+					flows = true
+				}
+				// must be guarded by ret == nil
+				g := false
+				for _, par := range parents {
+					if is, ok := par.(*ast.IfStmt); ok {
+						for _, c := range conjuncts(is.Cond) {
+							if be, ok := ast.Unparen(c).(*ast.BinaryExpr); ok && be.Op == token.EQL && sameObj(info, be.X, ret) && types.ExprString(be.Y) == "nil" {
+								g = true
+							}
+						}
+					}
+				}
+				if !g {
+					guardedOnly = false
+				}
+			}
+			return true
+		})
+		if !flows || !guardedOnly {
+			return false
+		}
+	}
+	return true
 }
